@@ -1,4 +1,4 @@
-import RlModel.Lemmas.Store
+import RlModel.Lemmas.StoreHist
 /-!
 # C07 — Deletes are exact and permanent; compaction is invisible
 
@@ -110,5 +110,112 @@ theorem compaction_keeps_key_order {le : Row → Row → Bool} (tp : TotalPreord
   intro l hl
   obtain ⟨⟨rows, q⟩, _, rfl⟩ := List.mem_map.mp hl
   exact SortedBy.filter tp q _ (sortStable_sorted tp rows)
+
+/-! ## The store as a whole (theorem S restricted to data statements) -/
+
+/-- **delete_exact**: a DELETE removes from its table exactly the rows satisfying the predicate,
+touches no other table, and reports the number of rows it removed.  (`Wf`: ids handed out so far are
+below the generators — established by `data_history_exact` along every history.) -/
+theorem delete_exact (s : Store) (wf : Wf s) (n : String) (p : Row → Bool) (tid : Nat)
+    (h : s.tableId? n = some tid) :
+    (s.delete n p).2 = .ok ((s.scan tid).filter p).length ∧
+    (s.delete n p).1.scan tid = (s.scan tid).filter (fun r => !p r) ∧
+    ∀ t, t ≠ tid → (s.delete n p).1.scan t = s.scan t :=
+  let ⟨_, _, _, h1, h2, h3⟩ := delete_scan s wf n p tid h
+  ⟨h1, h2, h3⟩
+
+/-- **compaction_invisible**: a compaction pass — whatever order it visits the tables in, whatever
+row-sets each selection names — changes no table's bag of rows. -/
+theorem compaction_invisible (s : Store) (wf : Wf s) (plan : List (Nat × List Nat)) (t : Nat) :
+    ((s.compact plan).scan t).Perm (s.scan t) :=
+  (compact_scan plan s wf).2.2.2 t
+
+/-- a vacuum pass changes no query result -/
+theorem vacuum_invisible (s : Store) (wf : Wf s) (t : Nat) : s.vacuum.scan t = s.scan t :=
+  (vacuum_scan s wf).2.2.2 t
+
+/-- **history_exact**: after ANY history of INSERT (any partition into row-sets), DELETE,
+compaction passes (any selections) and vacuum passes, every table holds — as a bag — exactly the
+rows inserted and not since deleted.  `RowsFit` is the forced hypothesis (no NULL into a NOT NULL
+column; see C05). -/
+theorem history_exact (h : List Op) (s : Store) (wf : Wf s) (hd : ∀ op ∈ h, op.isData = true)
+    (hfit : RowsFit s.cat s.tables h) :
+    ∃ s', run (.up s) h = .up s' ∧ ∀ tid, (s'.scan tid).Perm (tidSpec s.cat s.tables tid h (s.scan tid)) :=
+  let ⟨s', h1, _, _, _, h5⟩ := data_history_exact h s wf hd hfit
+  ⟨s', h1, h5⟩
+
+def NoInsertInto (c : Catalog) (tid : Nat) : List Op → Prop
+  | [] => True
+  | .insert n _ :: ops => resolve c n ≠ some tid ∧ NoInsertInto c tid ops
+  | _ :: ops => NoInsertInto c tid ops
+
+def NoDeleteFrom (c : Catalog) (tid : Nat) : List Op → Prop
+  | [] => True
+  | .delete n _ :: ops => resolve c n ≠ some tid ∧ NoDeleteFrom c tid ops
+  | _ :: ops => NoDeleteFrom c tid ops
+
+theorem tidSpec_subset (c : Catalog) (tbl : List (Nat × TableDef)) (tid : Nat) : ∀ (ops : List Op) (rows : List Row),
+    NoInsertInto c tid ops → ∀ r ∈ tidSpec c tbl tid ops rows, r ∈ rows
+  | [], _, _, r, h => h
+  | op :: ops, rows, hn, r, h => by
+    cases op with
+    | insert n parts =>
+      have hc : ¬ (resolve c n = some tid ∧ (lookup tid tbl).isSome = true) := fun x => hn.1 x.1
+      simp only [tidSpec, hc, if_false] at h
+      exact tidSpec_subset c tbl tid ops rows hn.2 r h
+    | delete n p =>
+      simp only [tidSpec] at h
+      have := tidSpec_subset c tbl tid ops _ hn r h
+      split at this
+      · exact (List.mem_filter.mp this).1
+      · exact this
+    | _ => exact tidSpec_subset c tbl tid ops rows hn r h
+
+theorem tidSpec_superset (c : Catalog) (tbl : List (Nat × TableDef)) (tid : Nat) : ∀ (ops : List Op) (rows : List Row),
+    NoDeleteFrom c tid ops → ∀ r ∈ rows, r ∈ tidSpec c tbl tid ops rows
+  | [], _, _, r, h => h
+  | op :: ops, rows, hn, r, h => by
+    cases op with
+    | delete n p =>
+      have hc : ¬ (resolve c n = some tid) := hn.1
+      simp only [tidSpec, hc, if_false]
+      exact tidSpec_superset c tbl tid ops rows hn.2 r h
+    | insert n parts =>
+      simp only [tidSpec]
+      apply tidSpec_superset c tbl tid ops _ hn
+      split
+      · exact List.mem_append_left _ h
+      · exact h
+    | _ => exact tidSpec_superset c tbl tid ops rows hn r h
+
+/-- **deleted_never_reappears**: once a DELETE has removed the rows satisfying `p`, no later
+compaction, vacuum, DELETE or INSERT into *other* tables brings one back. -/
+theorem deleted_never_reappears (s : Store) (wf : Wf s) (n : String) (p : Row → Bool) (tid : Nat)
+    (hn : s.tableId? n = some tid) (h : List Op) (hd : ∀ op ∈ h, op.isData = true)
+    (hfit : RowsFit s.cat s.tables h) (hni : NoInsertInto s.cat tid h) :
+    ∃ s', run (.up s) (.delete n p :: h) = .up s' ∧ ∀ r ∈ s'.scan tid, p r = false := by
+  obtain ⟨s', h1, h5⟩ := history_exact (.delete n p :: h) s wf
+    (by intro op hop; cases hop with
+      | head => rfl
+      | tail _ hop => exact hd op hop) hfit
+  refine ⟨s', h1, ?_⟩
+  intro r hr
+  have hr' := (h5 tid).mem_iff.mp hr
+  have hc : resolve s.cat n = some tid := by rw [← tableId?_eq]; exact hn
+  simp only [tidSpec, hc, if_true] at hr'
+  have := tidSpec_subset _ _ tid h _ hni r hr'
+  simpa using (List.mem_filter.mp this).2
+
+/-- **survivor_never_lost**: a row that is in a table stays there through any history of
+compactions, vacuums, INSERTs and DELETEs on other tables. -/
+theorem survivor_never_lost (s : Store) (wf : Wf s) (tid : Nat) (h : List Op)
+    (hd : ∀ op ∈ h, op.isData = true) (hfit : RowsFit s.cat s.tables h) (hnd : NoDeleteFrom s.cat tid h) :
+    ∃ s', run (.up s) h = .up s' ∧ ∀ r ∈ s.scan tid, r ∈ s'.scan tid := by
+  obtain ⟨s', h1, h5⟩ := history_exact h s wf hd hfit
+  exact ⟨s', h1, fun r hr => (h5 tid).mem_iff.mpr (tidSpec_superset _ _ tid h _ hnd r hr)⟩
+
+example : ∃ s', run (.up Store.init) [.compact [(0, [0, 1])], .vacuum] = .up s' ∧
+    ∀ tid, (s'.scan tid).Perm (tidSpec Store.init.cat Store.init.tables tid [.compact [(0, [0, 1])], .vacuum] (Store.init.scan tid)) :=
+  history_exact _ _ wf_init (by intro op h; simp at h; rcases h with rfl | rfl <;> rfl) (by simp [RowsFit])
 
 end RlModel
